@@ -39,10 +39,14 @@ Definition no_faults (sched : list (nat * choice)) : Prop :=
 Definition has_close (progs : list (list op)) : Prop := exists p, In p progs /\ In OClose p.
 
 (* a boolean test evaluated on the end state of a schedule *)
+Lemma run_witness_g : forall g progs sched (P : state -> bool),
+  match run (init_g g progs) sched with Some s => P s | None => false end = true ->
+  exists s, run (init_g g progs) sched = Some s /\ P s = true.
+Proof. intros g progs sched P H. destruct (run (init_g g progs) sched) as [s|]; [eauto | discriminate]. Qed.
 Lemma run_witness : forall progs sched (P : state -> bool),
   match run (init progs) sched with Some s => P s | None => false end = true ->
   exists s, run (init progs) sched = Some s /\ P s = true.
-Proof. intros progs sched P H. destruct (run (init progs) sched) as [s|]; [eauto | discriminate]. Qed.
+Proof. intros progs sched. apply (run_witness_g false). Qed.
 
 Definition nl_eqb := list_eqb Nat.eqb.
 Lemma nl_eqb_eq : forall a b, nl_eqb a b = true -> a = b.
@@ -113,27 +117,29 @@ Proof.
   repeat (destruct H as [H|H]; [inversion H; subst; auto|]). destruct H.
 Qed.
 
-Lemma transparent_refuted_w3 :
-  exists s, run (init w3_progs) w3_sched = Some s /\ all_done s = true
+Lemma transparent_refuted_w3 : forall g,
+  exists s, run (init_g g w3_progs) w3_sched = Some s /\ all_done s = true
             /\ no_faults w3_sched /\ ~ has_close w3_progs
             /\ results s = [[RErrClosed]; [ROk]; []].
 Proof.
-  destruct (run_witness w3_progs w3_sched
+  intro g.
+  destruct (run_witness_g g w3_progs w3_sched
     (fun s => all_done s && res_eqb (results s) [[RErrClosed]; [ROk]; []])) as [s [R H]];
-    [vm_compute; reflexivity|].
+    [destruct g; vm_compute; reflexivity|].
   exists s. apply andb_prop in H; destruct H as [H1 H2].
   split; [exact R|]. split; [exact H1|]. split; [exact no_faults_w3|]. split; [|apply res_eqb_eq, H2].
   intros [p [Hp Hc]]. cbn in Hp. destruct Hp as [<-|[<-|[]]]; cbn in Hc;
     repeat (destruct Hc as [Hc|Hc]; [discriminate|]); destruct Hc.
 Qed.
 
-Lemma clean_error_refuted_w5 :
-  exists s, run (init w5_progs) w5_sched = Some s /\ all_done s = true
+Lemma clean_error_refuted_w5 : forall g,
+  exists s, run (init_g g w5_progs) w5_sched = Some s /\ all_done s = true
             /\ results s = [[ROk]; [RPanic]].
 Proof.
-  destruct (run_witness w5_progs w5_sched
+  intro g.
+  destruct (run_witness_g g w5_progs w5_sched
     (fun s => all_done s && res_eqb (results s) [[ROk]; [RPanic]])) as [s [R H]];
-    [vm_compute; reflexivity|].
+    [destruct g; vm_compute; reflexivity|].
   exists s. apply andb_prop in H; destruct H as [H1 H2].
   repeat split; auto using res_eqb_eq.
 Qed.
